@@ -140,6 +140,11 @@ func Explore(cfg Config, body func()) *Report {
 			}
 			Progress(nil)
 			e := RunOnce(it.picks, opts, body)
+			if e.Unsupported != "" {
+				rep.Errors = append(rep.Errors, "the code under test uses a construct the controlled scheduler does not model: "+e.Unsupported)
+				stop = true
+				break
+			}
 			if e.Diverge != "" {
 				rep.Errors = append(rep.Errors, "replay of a prefix diverged: "+e.Diverge+" picks="+fmt.Sprint(it.picks))
 				stop = true
